@@ -6,6 +6,9 @@ from vlib.agp import Run, best_of
 from vlib.runner import fail, hyp_run
 
 LEVEL = "exploration"
+RULE_EXTRA = (" A fifth of the cases request the refinement explicitly: DoGlobalIteration(n) followed by "
+              "DoLocalRefinement(k), k in {0,1,2,5,20,-1}, once or twice. User problems may return a new value holder or numpy "
+              "scalars, and the objective may carry a level of +-1e2..1e7.")
 RULE = ("Hypothesis-generated objectives whose unconstrained minimum lies outside or on the boundary of the box "
         "(linear, bowls with outside vertex, absolute sums with the kink on a face) plus the general families; "
         "N=1..5; boxes incl. far-from-origin and thin ones; refineSolution in {False,True}; itersLimit from 1 up "
@@ -13,6 +16,7 @@ RULE = ("Hypothesis-generated objectives whose unconstrained minimum lies outsid
         "lie in [lower-t, upper+t]; with refinement the returned value <= best global-phase value and equals the "
         "objective at the returned point. Non-trivial: refinement on and the unconstrained descent direction "
         "leaves the box. Distinct = distinct case digest.")
+RULE = RULE + RULE_EXTRA
 ASSUMPTIONS = [
     "containment tolerance t = 1e-12*(|lower|+|upper|+width) per coordinate (rounding of the affine map only)",
     "global-phase evaluations = the first numberOfGlobalTrials entries of the Calculate log",
